@@ -2,7 +2,14 @@
 (used by file2coq.py; fail closed).  `self._map` is an association list kind -> gval, a gval is a list of records or an
 association list dir -> list of records.  Python's reference semantics is rendered by tracking, for every value read out of the
 map, the path it was read from: `.append` / `.setdefault` on such a value writes the new value back along that path.
-dict primitives: gen_afind (lookup), gen_astore (d[k] = v: replace, or append a new key), gen_setdefault."""
+dict primitives: gen_afind (lookup), gen_astore (d[k] = v: replace, or append a new key), gen_setdefault.
+
+READ side (second half of this file): `_get` once more as the VALUE it returns (gen_db_get), iter_values (try/except: the handler's class
+and its subclasses, from exceptions.py, are the caught errors), get_random (list comprehension over self.iter_values(..) = filter;
+`if not records: raise`; random.choice(l) = gen_random_choice l pick -- ASSUMED: an element of l at some index < len(l), IndexError on
+an empty list; the index is an extra argument), __len__ (sum / generator expressions over .values(), isinstance narrowing), _replace
+(`self._map = other._map`), Database.load (a statement list over the state `self._map`: arguments are evaluated before the call, so
+an exception in parse_file leaves the map as it is at that point)."""
 import ast
 from sig2coq import Unsupported, fail
 
@@ -237,3 +244,291 @@ def translate_db(dcls_methods):
             raise Unsupported("RecordsDatabase.%s not found" % must)
     tr = DbTr(dcls_methods)
     return [PRELUDE_DB, tr.method("create"), tr.method("add")]
+
+
+# ====================================================================================================================
+# READ side: _get as a value, iter_values, get_random, __len__, _replace, Database.load
+# ====================================================================================================================
+PRELUDE_RD = r"""(* read side: fixed glue *)
+Definition gen_sum (l : list Z) : Z := fold_left Z.add l 0.                    (* sum(iterable): left to right from 0 *)
+(* ASSUMED: random.choice(seq) returns seq[i] for some index i < len(seq) (IndexError on an empty seq); the index is the extra argument *)
+Definition gen_random_choice {A} (l : list A) (pick : nat) : res A :=
+  match nth_error l pick with Some r => Ok r | None => Err (Crash CIndex) end."""
+
+
+def strip_doc(body):
+    return [s for s in body if not (isinstance(s, ast.Expr) and isinstance(s.value, ast.Constant) and isinstance(s.value.value, str))]
+
+
+class RdTr:
+    """Read-only methods of RecordsDatabase: values are (term, type) with types KIND ODIR T LISTREC REC GVAL GDICT Z B."""
+
+    def __init__(self, methods, caught_by):
+        self.methods = methods
+        self.caught_by = caught_by           # exception class name -> list of Coq `err` patterns it catches (itself and subclasses)
+        self.n = 0
+        self.done = {}                       # translated methods: name -> (param kinds, result type)
+
+    def fresh(self, b):
+        self.n += 1
+        return "%s_%d" % (b, self.n)
+
+    def params(self, fn, allowed):
+        a = fn.args
+        if a.vararg or a.kwarg or a.kwonlyargs or a.posonlyargs or fn.decorator_list or not a.args or a.args[0].arg != "self":
+            fail(fn, "method signature")
+        out = []
+        defaults = [None] * (len(a.args) - len(a.defaults)) + list(a.defaults)
+        for x, d in list(zip(a.args, defaults))[1:]:
+            ann = ast.unparse(x.annotation) if x.annotation is not None else "?"
+            kind = allowed.get(ann)
+            if kind is None or (d is not None and not (kind == "ODIR" and isinstance(d, ast.Constant) and d.value is None)):
+                fail(fn, "parameter " + x.arg)
+            out.append((x.arg, kind, d is not None))
+        return out
+
+    COQ = {"KIND": "kind", "ODIR": "option dir", "T": "text", "LISTREC": "list rec", "REC": "rec", "Z": "Z"}
+
+    def self_call(self, e, env, name):
+        """self.<name>(args): positional arguments only, passed to an already translated method"""
+        if not (isinstance(e, ast.Call) and isinstance(e.func, ast.Attribute) and is_name(e.func.value, "self") and e.func.attr == name) or e.keywords:
+            return None
+        if name not in self.done:
+            fail(e, "call of a method that is not translated yet")
+        kinds, ret = self.done[name]
+        if len(e.args) != len(kinds):
+            fail(e, "argument count")               # defaults are not used by the callers we translate
+        args = []
+        for a, k in zip(e.args, kinds):
+            if not is_name(a) or a.id not in env or env[a.id][1] != k:
+                fail(e, "argument of self.%s" % name)
+            args.append(env[a.id][0])
+        return ("(gen_%s m %s)" % (name.strip("_") if name != "_get" else "db_get", " ".join(args)), ret)
+
+    # ---------------------------------------------------------------- pure expressions
+    def pure(self, e, env):
+        if is_name(e) and e.id in env:
+            return env[e.id]
+        if isinstance(e, ast.Call) and is_name(e.func, "len") and "len" not in env and len(e.args) == 1 and not e.keywords:
+            v = self.pure(e.args[0], env)
+            if v[1] != "LISTREC":
+                fail(e, "len of " + v[1])
+            return ("(Z.of_nat (length %s))" % v[0], "Z")
+        if isinstance(e, ast.Call) and is_name(e.func, "sum") and "sum" not in env and len(e.args) == 1 and not e.keywords \
+                and isinstance(e.args[0], ast.GeneratorExp):
+            g = e.args[0]
+            if len(g.generators) != 1 or g.generators[0].ifs or g.generators[0].is_async or not is_name(g.generators[0].target):
+                fail(e, "generator shape")
+            x = g.generators[0].target.id
+            it = g.generators[0].iter
+            if not (isinstance(it, ast.Call) and isinstance(it.func, ast.Attribute) and it.func.attr == "values" and not it.args and not it.keywords):
+                fail(e, "generator iterable: <dict>.values() expected")
+            src = it.func.value
+            if isinstance(src, ast.Attribute) and src.attr == "_map" and is_name(src.value, "self"):
+                lst, ety = "(map snd m)", "GVAL"
+            elif is_name(src) and src.id in env and env[src.id][1] == "GDICT":
+                lst, ety = "(map snd %s)" % env[src.id][0], "LISTREC"
+            else:
+                fail(e, "values() of a non-dict")
+            v = self.fresh(x)
+            env2 = dict(env)
+            env2[x] = (v, ety)
+            elt = self.pure(g.elt, env2)
+            if elt[1] != "Z":
+                fail(e, "sum of non-numbers")
+            return ("(gen_sum (map (fun %s => %s) %s))" % (v, elt[0], lst), "Z")
+        if isinstance(e, ast.IfExp) and isinstance(e.test, ast.Call) and is_name(e.test.func, "isinstance") and "isinstance" not in env \
+                and len(e.test.args) == 2 and not e.test.keywords and is_name(e.test.args[0]) and e.test.args[0].id in env \
+                and is_name(e.test.args[1]) and e.test.args[1].id in ("list", "dict") and e.test.args[1].id not in env:
+            x = e.test.args[0].id
+            if env[x][1] != "GVAL":
+                fail(e, "isinstance on " + env[x][1])
+            l, d = self.fresh(x + "_list"), self.fresh(x + "_dict")
+            e_l, e_d = dict(env), dict(env)
+            e_l[x] = (l, "LISTREC")
+            e_d[x] = (d, "GDICT")
+            yes, no = (e_l, e_d) if e.test.args[1].id == "list" else (e_d, e_l)
+            a, b = self.pure(e.body, yes), self.pure(e.orelse, no)
+            if a[1] != b[1]:
+                fail(e, "branches of different types")
+            tl, td = (a, b) if e.test.args[1].id == "list" else (b, a)
+            return ("(match %s with GList %s => %s | GDict %s => %s end)" % (env[x][0], l, tl[0], d, td[0]), a[1])
+        if isinstance(e, ast.Call) and isinstance(e.func, ast.Attribute) and e.func.attr == "dump" and not e.args and not e.keywords \
+                and isinstance(e.func.value, ast.Attribute) and e.func.value.attr == "label":
+            r = self.pure(e.func.value.value, env)
+            if r[1] != "REC":
+                fail(e, ".label of " + r[1])
+            return ("(gen_dump (rc_label %s))" % r[0], "T")             # virtual dispatch of label.dump(): gen_dump
+        if isinstance(e, ast.Compare) and len(e.ops) == 1:
+            l, r = self.pure(e.left, env), self.pure(e.comparators[0], env)
+            if l[1] == "T" and r[1] == "T":
+                t = {ast.Eq: "(text_eqb %s %s)", ast.NotEq: "(negb (text_eqb %s %s))", ast.In: "(infix %s %s)", ast.NotIn: "(negb (infix %s %s))"}.get(type(e.ops[0]))
+                if t is not None:
+                    return (t % (l[0], r[0]), "B")
+            fail(e, "comparison")
+        fail(e, "read-side expression")
+
+    # ---------------------------------------------------------------- monadic blocks
+    def block(self, stmts, env, ret):
+        if not stmts:
+            fail(None, "method falls off its end")
+        s, rest = stmts[0], stmts[1:]
+        if isinstance(s, ast.Try):
+            if s.orelse or s.finalbody or len(s.handlers) != 1 or len(s.body) != 1:
+                fail(s, "try shape")
+            b, h = s.body[0], s.handlers[0]
+            if not (isinstance(b, ast.Assign) and len(b.targets) == 1 and is_name(b.targets[0])):
+                fail(s, "try body: a single assignment expected")
+            c = self.self_call(b.value, env, "_get")
+            if c is None:
+                fail(s, "try body: self._get(..) expected")
+            if not (is_name(h.type) and h.type.id in self.caught_by and len(h.body) == 1 and isinstance(h.body[0], ast.Raise)):
+                fail(s, "handler shape")
+            handler = self.raise_term(h.body[0], h.name)
+            pats = " | ".join("Err (%s) => %s" % (p, handler) for p in self.caught_by[h.type.id])
+            v = self.fresh(b.targets[0].id)
+            env2 = dict(env)
+            env2[b.targets[0].id] = (v, c[1])
+            return "(do %s <- (match %s with %s | x_ => x_ end); %s)" % (v, c[0], pats, self.block(rest, env2, ret))
+        if isinstance(s, ast.Return) and s.value is not None:
+            e = s.value
+            if isinstance(e, ast.Call) and is_name(e.func, "iter") and "iter" not in env and len(e.args) == 1 and not e.keywords:
+                v = self.pure(e.args[0], env)               # iter(list): the caller consumes it as the list
+                if v[1] != "LISTREC" or ret != "LISTREC":
+                    fail(s, "iter of " + v[1])
+                return "(Ok %s)" % v[0]
+            if isinstance(e, ast.Call) and ast.unparse(e.func) == "random.choice" and "random" not in env and len(e.args) == 1 and not e.keywords:
+                v = self.pure(e.args[0], env)
+                if v[1] != "LISTREC" or ret != "REC" or "pick" in env:
+                    fail(s, "random.choice of " + v[1])
+                return "(gen_random_choice %s pick)" % v[0]
+            v = self.pure(e, env)
+            if v[1] != ret:
+                fail(s, "return of %s where %s is expected" % (v[1], ret))
+            return "(Ok %s)" % v[0]
+        if isinstance(s, ast.Raise):
+            return self.raise_term(s, None)
+        if isinstance(s, (ast.Assign, ast.AnnAssign)) and isinstance(s.value, ast.ListComp):
+            t = s.targets[0] if isinstance(s, ast.Assign) and len(s.targets) == 1 else getattr(s, "target", None)
+            lc = s.value
+            if not is_name(t) or len(lc.generators) != 1 or lc.generators[0].is_async or not is_name(lc.generators[0].target):
+                fail(s, "list comprehension shape")
+            g = lc.generators[0]
+            x = g.target.id
+            if not is_name(lc.elt, x):
+                fail(s, "list comprehension element: the loop variable expected")
+            c = self.self_call(g.iter, env, "iter_values")
+            if c is None:
+                fail(s, "list comprehension iterable: self.iter_values(..) expected")
+            it, xv, out = self.fresh("it"), self.fresh(x), self.fresh(t.id)
+            env_x = dict(env)
+            env_x[x] = (xv, "REC")
+            conds = []
+            for i in g.ifs:
+                cv = self.pure(i, env_x)
+                if cv[1] != "B":
+                    fail(i, "filter condition")
+                conds.append(cv[0])
+            body = " && ".join(conds) if conds else "true"
+            env2 = dict(env)
+            env2[t.id] = (out, "LISTREC")
+            return "(do %s <- %s; (let %s := filter (fun %s => %s) %s in %s))" % (it, c[0], out, xv, body, it, self.block(rest, env2, ret))
+        if isinstance(s, ast.If) and not s.orelse:
+            neg = isinstance(s.test, ast.UnaryOp) and isinstance(s.test.op, ast.Not)
+            x = s.test.operand if neg else s.test
+            if is_name(x) and x.id in env and env[x.id][1] == "LISTREC":
+                a, b = self.block(list(s.body) + rest, env, ret), self.block(rest, env, ret)
+                empty, nonempty = (a, b) if neg else (b, a)
+                return "(match %s with [] => %s | _ :: _ => %s end)" % (env[x.id][0], empty, nonempty)
+            fail(s, "if test")
+        fail(s, "read-side statement")
+
+    def raise_term(self, s, cause):
+        if not (isinstance(s.exc, ast.Call) and is_name(s.exc.func, "DatabaseError")):
+            fail(s, "raise")
+        if (s.cause is None) != (cause is None) or (cause is not None and not is_name(s.cause, cause)):
+            fail(s, "raise ... from")
+        return "(Err DatabaseError)"
+
+    def method(self, name, allowed, ret, extra=""):
+        fn = self.methods[name]
+        ps = self.params(fn, allowed)
+        env = {p: (p + "_", kind) for p, kind, _ in ps}
+        body = self.block(strip_doc(fn.body), env, ret)
+        self.done[name] = ([k for _, k, _ in ps], ret)
+        return "Definition gen_%s (m : gmap) %s%s : res (%s) :=\n  %s." % (
+            name.strip("_"), " ".join("(%s_ : %s)" % (p, self.COQ[k]) for p, k, _ in ps), extra, self.COQ[ret], body)
+
+
+def translate_read(dmeth, caught_by):
+    for must in ("_get", "iter_values", "get_random", "__len__", "_replace"):
+        if must not in dmeth:
+            raise Unsupported("RecordsDatabase.%s not found" % must)
+    out = [PRELUDE_RD]
+    # _get once more, as the VALUE it returns (same source, same symbolic execution; the path is dropped)
+    w = DbTr(dmeth)
+    fn = dmeth["_get"]
+    ps = w.params(fn)
+    if [k for _, k, _ in ps] != ["KIND", "ODIR"]:
+        fail(fn, "_get parameters")
+    env = {p: (kind, p + "_") for p, kind, _ in ps}
+
+    def ret_list(v, m):
+        if v[0] == "LEAF" or (v[0] == "INNER" and v[3] == "GList"):
+            return "(Ok %s)" % v[1]
+        fail(fn, "_get returns a value that is not a record list")
+    body = w.block(list(fn.body), env, "m", ret_list, lambda e, m: fail(fn, "_get falls off its end"))
+    out.append("Definition gen_db_get (m : gmap) %s : res (list rec) :=\n  %s." % (" ".join("(%s_ : %s)" % (p, {"KIND": "kind", "ODIR": "option dir"}[k]) for p, k, _ in ps), body))
+    r = RdTr(dmeth, caught_by)
+    r.done["_get"] = (["KIND", "ODIR"], "LISTREC")
+    kd = {"Type[T]": "KIND", "Type[Record]": "KIND", "Optional[Direction]": "ODIR", "str": "T"}
+    out.append(r.method("iter_values", kd, "LISTREC"))
+    if r.done["iter_values"][0] != ["KIND", "ODIR"]:
+        fail(dmeth["iter_values"], "iter_values parameters")
+    out.append(r.method("get_random", kd, "REC", extra=" (pick : nat)"))
+    if r.done["get_random"][0] != ["T", "KIND", "ODIR"]:
+        fail(dmeth["get_random"], "get_random parameters")
+    # __len__
+    fn = dmeth["__len__"]
+    if [a.arg for a in fn.args.args] != ["self"] or fn.decorator_list or fn.args.kwonlyargs or fn.args.vararg or fn.args.kwarg:
+        fail(fn, "__len__ signature")
+    body = strip_doc(fn.body)
+    if len(body) != 1 or not isinstance(body[0], ast.Return) or body[0].value is None:
+        fail(fn, "__len__ body: a single return expected")
+    v = r.pure(body[0].value, {})
+    if v[1] != "Z":
+        fail(fn, "__len__ result")
+    out.append("Definition gen_len (m : gmap) : Z :=\n  %s." % v[0])
+    # _replace(self, other): self._map = other._map
+    fn = dmeth["_replace"]
+    body = strip_doc(fn.body)
+    if [a.arg for a in fn.args.args] != ["self", "other"] or fn.decorator_list or fn.args.defaults or fn.args.kwonlyargs or fn.args.vararg or fn.args.kwarg \
+            or len(body) != 1 or not isinstance(body[0], ast.Assign) or ast.unparse(body[0]) != "self._map = other._map":
+        fail(fn, "_replace: `self._map = other._map` expected")
+    out.append("(* _replace(self, other): the new value of self._map *)\nDefinition gen_db_replace (m other : gmap) : gmap := other.")
+    return out
+
+
+def translate_load(fn):
+    """Database.load as a state transformer with exceptions: gmap -> gmap * res unit.  Arguments are evaluated before the call they
+    are passed to, so a raising parse_file leaves self._map as it is at that point."""
+    a = fn.args
+    if [x.arg for x in a.args] != ["self", "filepath"] or a.kwonlyargs or a.vararg or a.kwarg or fn.decorator_list or len(a.defaults) > 1:
+        fail(fn, "load signature")
+
+    def block(stmts, m, n):
+        if not stmts:
+            return "(%s, Ok tt)" % m
+        s, rest = stmts[0], stmts[1:]
+        if isinstance(s, ast.Assign) and ast.unparse(s) == "self._map = {}":
+            return block(rest, "[]", n)
+        if isinstance(s, ast.Expr) and isinstance(s.value, ast.Call):
+            c = s.value
+            if ast.unparse(c.func) == "self._replace" and len(c.args) == 1 and not c.keywords:
+                if ast.unparse(c.args[0]) != "parse_file(always_path(filepath))":
+                    fail(s, "argument of _replace: parse_file(always_path(filepath)) expected")
+                v, m2 = "other_%d" % n, "map_%d" % n
+                return "(match gen_open_parse_file file with Err e_ => (%s, Err e_) | Ok %s => (let %s := gen_db_replace %s %s in %s) end)" % (
+                    m, v, m2, m, v, block(rest, m2, n + 1))
+        fail(s, "load statement")
+    return "Definition gen_Database_load (m : gmap) (file : list text) : gmap * res unit :=\n  %s." % block(strip_doc(fn.body), "m", 1)
